@@ -24,7 +24,7 @@ func c09Configs(tier string) []c09.Bounds {
 	out = append(out, c09.Bounds{N: 9, Epoch: 6, Depth: 8, U: 10, Big: true, GenesisShrink: 3}, c09.Bounds{N: 8, Epoch: 5, Depth: 8, U: 10, Big: true, GenesisShrink: 2},
 		c09.Bounds{N: 9, Epoch: 6, Depth: 7, U: 10, Big: true},
 		// the start header announces a rotated set (validator 0 out, an outsider in): installed by create and by the real upgrade
-		c09.Bounds{N: 3, Epoch: 4, Depth: 7, Rotate: true}, c09.Bounds{N: 3, Epoch: 4, Depth: 7, Rotate: true, ViaUpgrade: true}, c09.Bounds{N: 2, Epoch: 3, Depth: 7, Rotate: true, ViaUpgrade: true},
+		c09.Bounds{N: 3, Epoch: 4, Depth: 7, Rotate: true}, c09.Bounds{N: 3, Epoch: 4, Depth: 7, Rotate: true, ViaUpgrade: true}, c09.Bounds{N: 3, Epoch: 4, Depth: 6, Reanchored: true}, c09.Bounds{N: 2, Epoch: 3, Depth: 7, Rotate: true, ViaUpgrade: true},
 		c09.Bounds{N: 8, Epoch: 5, Depth: 7, U: 10, Big: true, GenesisShrink: 2, ViaUpgrade: true},
 		// chains crossing 9->10 and 99->100 (store keys carry decimal heights: their order changes with the digit count)
 		c09.Bounds{N: 3, Epoch: 3, Depth: 7, Start: 96}, c09.Bounds{N: 4, Epoch: 4, Depth: 8, Start: 96}, c09.Bounds{N: 3, Epoch: 3, Depth: 6, Start: 6}, c09.Bounds{N: 5, Epoch: 5, Depth: 8, Start: 95, U: 6})
@@ -50,7 +50,7 @@ func init() {
 			states += res.States
 			trans += res.Transitions
 			traces += res.Traces
-			r.Count(fmt.Sprintf("states_N%d_E%d_shrink%d_rotate%v_upgrade%v", b.N, b.Epoch, b.GenesisShrink, b.Rotate, b.ViaUpgrade)+fmt.Sprintf("_start%d", b.Start), res.States)
+			r.Count(fmt.Sprintf("states_N%d_E%d_shrink%d_rotate%v_upgrade%v", b.N, b.Epoch, b.GenesisShrink, b.Rotate, b.ViaUpgrade)+fmt.Sprintf("_start%d_reanchored%v", b.Start, b.Reanchored), res.States)
 			if !res.Exhaustive {
 				exhaustive = false
 				r.Incomplete(res.Incomplete)
